@@ -187,6 +187,19 @@ class Inventory:
                 work.extend(tg)
         return seen
 
+    def reachable_to(self, targets):
+        """fids from which some fid in `targets` is reachable"""
+        self.calls()
+        seen = set()
+        work = list(targets)
+        while work:
+            x = work.pop()
+            if x in seen:
+                continue
+            seen.add(x)
+            work.extend(self._callers.get(x, ()))
+        return seen
+
     def transitive_writes(self, roots):
         """{(Type, field)} directly written by any function reachable from roots"""
         reach = self.reachable(roots)
